@@ -114,6 +114,8 @@ class ZipfRules:
                                        'a %s local of type %s keeps state between calls / is shared between threads' % (e['storage'], ct))
                         seen_tls += 1
                         tls_vars[e['name']] = ct
+                    elif e['kind'] == 'decl' and e['type'].get('ct', '').startswith(TLS_ALLOW):
+                        tls_vars[e['name']] = e['type']['ct']     # an automatic distribution object carries no state at all
                     elif e['kind'] == 'call':
                         nm = e.get('name') or ''
                         rec_c = e.get('record') or ''
@@ -134,7 +136,7 @@ class ZipfRules:
                         if not okc:
                             self.sink.bad('C19.DEPS', '%s::operator() calls %s' % (sn, nm or e.get('callee', '?')[:60]), self.loc(op, e['line']),
                                           'callee outside the allowed set (own const methods, table reads, the stateless distribution on the caller\'s engine, <cmath>)')
-            self.sink.emit('C19.TLS', 'ok' if seen_tls else 'unsupported', '%s::operator() static-storage locals examined' % sn, self.loc(op), '%d' % seen_tls)
+            self.sink.ok('C19.TLS', '%s::operator() static-storage locals examined' % sn, self.loc(op), '%d (none is fine: automatic locals carry no state)' % seen_tls)
             self.sink.ok('C19.DEPS', '%s::operator() resolved callees within the allowed set' % sn, self.loc(op), '')
             # CTOR.REJECT
             ctors = [f for f in self.fns(rec, r['name'].split('::')[-1].split('<')[0]) if f['kind'] == 'ctor' and len(f['params']) == 3]
